@@ -2,7 +2,9 @@
 C07 — the hand-reviewed table of potential panic sites.
 
 `Gen.sites` (GenArms.lean, regenerated from /repo on every run) lists every `.unwrap()`, `.expect(`, `unreachable!`,
-`todo!`, `unimplemented!`, `panic!`, `assert!`, `as usize`, unchecked accessor and `x[i]` inside a function body of
+`todo!`, `unimplemented!`, `panic!`, `assert!`, `debug_assert!`, `as usize`, unchecked accessor, `x[i]` / `x[a..b]` and call of a
+method that panics on an out-of-range index / range / size (`split_at`, `split_off`, `swap_remove`, `drain`, `swap`, `remove`,
+`insert`, `windows`, `chunks`, `borrow_mut`, ...) inside a function body of
 primitives/*.rs and steel_vm/primitives.rs (outside `#[cfg(test)]`).  Every entry below was reviewed in the source
 (2026-09-24, brought up to /repo commit dbe72b10 after the fixes of that day); ids are hashes of (file, fn, kind, source line text, occurrence), so an entry stays valid when lines
 move and becomes unmatched when the line itself changes: `panic_sites_classified` then fails until the new site is
@@ -32,6 +34,23 @@ structure Review where
   reason : String
 
 def reviewed : List Review := [
+  ⟨7683171808965, .benign, "", "HashMap::insert (a map, not a Vec: no index)"⟩,  -- panicking_method hm_construct primitives/hashmaps.rs (kinds debug_assert / panicking_method added 2026-09-24)
+  ⟨17433068252082, .benign, "", "HashMap::insert (a map, not a Vec: no index)"⟩,  -- panicking_method hm_construct_keywords primitives/hashmaps.rs (kinds debug_assert / panicking_method added 2026-09-24)
+  ⟨16117092615217, .benign, "", "HashMap::remove by key returns an Option"⟩,  -- panicking_method hash_remove primitives/hashmaps.rs (kinds debug_assert / panicking_method added 2026-09-24)
+  ⟨9530614185034, .benign, "", "HashMap::remove by key returns an Option"⟩,  -- panicking_method hash_remove primitives/hashmaps.rs (kinds debug_assert / panicking_method added 2026-09-24)
+  ⟨1902020403499, .benign, "", "HashMap::insert (a map, not a Vec: no index)"⟩,  -- panicking_method hash_insert primitives/hashmaps.rs (kinds debug_assert / panicking_method added 2026-09-24)
+  ⟨3411393193674, .benign, "", "HashSet::insert"⟩,  -- panicking_method hs_construct primitives/hashsets.rs (kinds debug_assert / panicking_method added 2026-09-24)
+  ⟨9451370747209, .benign, "", "HashSet::insert"⟩,  -- panicking_method hs_insert primitives/hashsets.rs (kinds debug_assert / panicking_method added 2026-09-24)
+  ⟨3749921046496, .guarded, "", "every caller (add_primitive, subtract_primitive, divide, the op code handlers) rejects non-numbers with ensure_args_are_numbers / numberp before the dispatch, and a number that is not real is Complex, matched by the arm above; (+ 1+2i \"abc\"), (apply + (list 1+2i 'x)) answer TypeMismatch (replayed 2026-09-24)"⟩,  -- debug_assert add_two primitives/numbers.rs (kinds debug_assert / panicking_method added 2026-09-24)
+  ⟨7017076268432, .guarded, "", "as add_two: BINOPADD checks both operands are numbers before add_two_fallible"⟩,  -- debug_assert add_two_fallible primitives/numbers.rs (kinds debug_assert / panicking_method added 2026-09-24)
+  ⟨4786544471127, .hostEffect, "", "steel/polling (blocks on OS events, denied); the RefCell is thread-local and borrowed for one statement"⟩,  -- panicking_method clear_events primitives/polling.rs (kinds debug_assert / panicking_method added 2026-09-24)
+  ⟨3708907820919, .hostEffect, "", "steel/polling (blocks on OS events, denied)"⟩,  -- panicking_method poller_wait primitives/polling.rs (kinds debug_assert / panicking_method added 2026-09-24)
+  ⟨1382515149886, .guarded, "", "i >= len and j >= len are rejected just above, under the same write guard"⟩,  -- panicking_method mut_vec_swap primitives/vectors.rs (kinds debug_assert / panicking_method added 2026-09-24)
+  ⟨13481025140031, .benign, "", "windows(2): the size is the constant 2, never 0"⟩,  -- panicking_method equality_primitive steel_vm/primitives.rs (kinds debug_assert / panicking_method added 2026-09-24)
+  ⟨13172183697250, .benign, "", "windows(2): the size is the constant 2, never 0"⟩,  -- panicking_method gte_primitive steel_vm/primitives.rs (kinds debug_assert / panicking_method added 2026-09-24)
+  ⟨11742465185040, .benign, "", "windows(2): the size is the constant 2, never 0"⟩,  -- panicking_method lte_primitive steel_vm/primitives.rs (kinds debug_assert / panicking_method added 2026-09-24)
+  ⟨4603443406776, .benign, "", "windows(2): the size is the constant 2, never 0"⟩,  -- panicking_method lt_primitive steel_vm/primitives.rs (kinds debug_assert / panicking_method added 2026-09-24)
+  ⟨10512750810122, .benign, "", "windows(2): the size is the constant 2, never 0"⟩,  -- panicking_method gt_primitive steel_vm/primitives.rs (kinds debug_assert / panicking_method added 2026-09-24)
   ⟨14299630275091, .benign, "", "cast of the constant isize::BITS"⟩,  -- as_usize arithmetic_shift primitives/numbers.rs (added by /repo commit b3ca2f68)
   ⟨10788040694444, .guarded, "", "index >= guard.len() is rejected two lines above"⟩,  -- index bytes_set primitives/bytevectors.rs:258
   ⟨9866378230485, .guarded, "", "start < 0 / end < 0 rejected above"⟩,  -- as_usize bytes_to_string primitives/bytevectors.rs:391
